@@ -253,3 +253,46 @@ Proof. apply subseq_length, split_subseq. Qed.
 Example split_subseq_example :
   quoted_str_split [112; 32; 34; 97; 32; 92; 98] = [[112]; [97; 32; 98]].
 Proof. vm_compute. reflexivity. Qed.
+
+(** ---- lines compose: after a prefix that leaves the splitter outside quotes and outside an
+    escape, a space starts afresh — what follows cannot change the tokens before it, and the
+    tokens after it are those of the rest alone ------------------------------------------------- *)
+
+Fixpoint emitted (st : split_state) (s : str) : list str :=
+  match s with
+  | [] => []
+  | c :: r => match split_step st c with
+              | (st', None) => emitted st' r
+              | (st', Some t) => t :: emitted st' r
+              end
+  end.
+
+Lemma split_from_app a : forall st r,
+  split_from st (a ++ r) = emitted st a ++ split_from (run_state st a) r.
+Proof.
+  induction a as [|c a IH]; intros st r; cbn [app emitted run_state split_from]; [reflexivity|].
+  destruct (split_step st c) as [st' [t|]]; cbn [fst]; rewrite IH; reflexivity.
+Qed.
+
+Lemma split_from_space_fresh st b :
+  quotes st = QNo -> escaped st = 0 ->
+  split_from st (c_space :: b) = split_end st ++ split_from split_init b.
+Proof.
+  destruct st as [q cur e cq]; cbn [quotes escaped]; intros -> ->.
+  cbn [split_from]. unfold split_step, split_end; cbn [quotes current escaped closed_quote quoted negb].
+  replace (c_space =? c_bslash) with false by reflexivity.
+  replace (0 =? 1) with false by reflexivity.
+  replace (c_space =? c_space) with true by reflexivity. cbn [andb].
+  destruct cur as [|x cur]; cbn [is_empty negb andb orb].
+  - destruct cq; reflexivity.
+  - reflexivity.
+Qed.
+
+Lemma split_compose a b :
+  quotes (run_state split_init a) = QNo -> escaped (run_state split_init a) = 0 ->
+  quoted_str_split (a ++ c_space :: b) = quoted_str_split a ++ quoted_str_split b.
+Proof.
+  intros Hq He. unfold quoted_str_split.
+  rewrite split_from_app, (split_from_space_fresh _ b Hq He), app_assoc.
+  f_equal. rewrite <- (app_nil_r a) at 3. rewrite split_from_app. reflexivity.
+Qed.
